@@ -22,7 +22,10 @@ logging.disable(logging.CRITICAL)
 EXTRA = {
     "assumptions": [
         "which __finalize__ calls pandas makes for an operation (method name, `other`, result columns and dtypes) "
-        "is observed per case, not modelled; the theorems quantify over every such call",
+        "is observed per case, not modelled; the theorems quantify over every such call; for the operations the "
+        "statement names (STATEMENT_OPS) a call with a method pdtable does not know is an alarm",
+        "dropna / dropna(subset=) are refused by pdtable today (pandas' internal isna() frame is validated against "
+        "the kept units): open finding F4, keys row_selection_refused:dropna / :dropna_subset",
         "operations whose result pandas builds through `_constructor` without calling __finalize__ are outside "
         "the model (observed only): dot, matmul, rolling/expanding/ewm aggregations and groupby.cumsum return a "
         "TableDataFrame without metadata, no warning, no error — tracked as known findings "
@@ -34,8 +37,8 @@ EXTRA = {
         "accepts a refusal only when it verifies that cause on the observed result frame",
         "new columns of an EMPTY result frame stay unregistered until the frame has rows (pdtable does not trust "
         "dtypes of empty columns); the new-column clause is evaluated on non-empty results",
-        "a source without origin (`origin=None`) has no input locations; the ancestor clause is evaluated when "
-        "every source's ancestors are defined, the derived-origin / parents clause always",
+        "a source without origin (`origin=None`, a table made in code) has no input location and contributes none "
+        "to the result's input ancestors (D39 fixed in /repo)",
         "a frame with neither rows nor columns (shape (0, 0)) is dropped by pandas.concat before pdtable is asked "
         "(unless every operand is like that) and is then not counted as a source of the concat",
         "column labels are compared as (type, repr) tokens; labels that are equal in Python but of different "
@@ -65,11 +68,18 @@ _CURRENT = None      # the World receiving recorded __finalize__ calls
 # operation -> method names pandas 3.0.6 passes to TableDataFrame.__finalize__ (union over the data paths seen in
 # thorough runs of seeds 0-3); a difference is reported in the evidence notes, it is not an alarm
 FINALIZE_TABLE = {
+    "dropna": ["isna", "__invert__", "copy", "transpose", "take", "None"],
+    "dropna_subset": ["isna", "take", "__invert__", "copy", "transpose", "None"],
+    "drop_duplicates": ["copy", "take"], "query": ["take", "copy"],
+    "sample": ["take", "copy"], "nlargest": ["copy", "take"], "loc_mask": ["take", "copy"],
+    "shift": ["shift", "copy"], "interpolate": ["interpolate", "take", "None", "copy"], "where": ["None", "take"],
+    "rank": ["rank", "take", "None"], "diff": ["diff", "take", "None"], "clip": ["isna", "take", "None"],
+    "count": ["isna", "__invert__"],
     "astype_object": ["astype"],
     "astype_bool": ["astype"],
     "replace_label": ["None", "copy", "replace"],
     "fillna_label": ["astype", "copy", "fillna"],
-    "astype_nullable": ["astype"],
+    "astype_nullable": ["astype", "copy"],
     "assign_ext": ["copy"],
     "tz_localize": ["copy"],
     "convert_dtypes": ["convert_dtypes"],
@@ -187,6 +197,22 @@ def frame_json(df):
 
 
 UNOBSERVABLE = object()
+
+
+def info_of(x):
+    """the ComplementaryTableInfo attached to `x` (None if there is none): the frame's own hidden attribute when
+    it has the name this harness knows, else pdtable's public accessor — the one place that touches it"""
+    d = getattr(x, "__dict__", None)
+    if isinstance(d, dict) and "_table_data" in d:
+        return d["_table_data"]
+    try:
+        from pdtable.frame import get_table_info, is_table_dataframe
+        import pandas as pd
+        if isinstance(x, pd.DataFrame) and is_table_dataframe(x):
+            return get_table_info(x, fail_if_missing=False, check_dataframe=False) or None
+    except Exception:  # noqa: BLE001 — no metadata reachable
+        pass
+    return None
 
 
 def remembered_state(info):
@@ -313,7 +339,7 @@ class World:
         return self.n_infos - 1
 
     def add_table(self, t):
-        info = t.df._table_data
+        info = info_of(t.df)
         self.keep.append(t.df)
         o = self.raw_obs(info)
         last = state_json(info)
@@ -356,7 +382,7 @@ class World:
         if exc is not None:
             expect = {"exc": type(exc).__name__}
         else:
-            info = obj.__dict__.get("_table_data") if result is obj else None
+            info = info_of(obj) if result is obj else None
             from pdtable.frame import TableDataFrame
             if result is obj and info is not None:
                 call["res"] = "table"
@@ -380,7 +406,7 @@ class World:
     # ---- driven by the case script
     def consult(self, df):
         from pdtable.frame import get_table_info
-        info = df.__dict__.get("_table_data")
+        info = info_of(df)
         step = {"k": "consult", "info": self.ref(info), "frame": frame_json(df)}
         try:
             get_table_info(df)
@@ -398,7 +424,7 @@ class World:
                 except Exception:  # noqa: BLE001 — still refused, as it must be
                     continue
                 if frame_json(df) == before:
-                    info_now = df.__dict__.get("_table_data")
+                    info_now = info_of(df)
                     self.flips.append({"first": type(e).__name__, "then": "accepted, " + attempt,
                                        "frame": before,
                                        "units": [[tok(l), c.unit] for l, c in info_now.columns.items()]})
@@ -428,14 +454,14 @@ def install():
         if w is None:
             return orig(self, other, method, **kw)
         m = method if (method is None or isinstance(method, str)) else str(method)
-        own = getattr(other, "_table_data", None)
+        own = info_of(other)
         lr = objs = None
         if not isinstance(other, pd.core.generic.NDFrame):
             if hasattr(other, "left") and hasattr(other, "right"):
-                lr = [getattr(other.left, "_table_data", None), getattr(other.right, "_table_data", None)]
+                lr = [info_of(other.left), info_of(other.right)]
             if hasattr(other, "objs"):
-                objs = [getattr(o, "_table_data", None) for o in list(other.objs)]
-        obj_info = self.__dict__.get("_table_data")
+                objs = [info_of(o) for o in list(other.objs)]
+        obj_info = info_of(self)
         frame = frame_json(self)
         exc = res = None
         with warnings.catch_warnings(record=True) as ws:
@@ -606,7 +632,7 @@ def spec_header(spec):
 def header_of(t):
     """[(label, kind, unit)] of a Table, from the real objects"""
     df = t.df
-    cm = df._table_data.columns
+    cm = info_of(df).columns
     return [(l, df[l].dtype.kind, cm[l].unit) for l in df.columns if l in cm]
 
 
@@ -972,6 +998,76 @@ def _ops():
         cs = _numeric(d) or list(d.columns)
         return [d], lambda: np.exp(d[cs])
 
+    # ---- row selections of the statement ("row or column selection") beyond masks / slices / take
+    @op("dropna", True)
+    def _(rng, d, mk): return [d], lambda: d.dropna()
+
+    @op("dropna_subset", True)
+    def _(rng, d, mk):
+        c = rng.choice(list(d.columns))
+        return [d], lambda: d.dropna(subset=[c])
+
+    @op("drop_duplicates", True)
+    def _(rng, d, mk): return [d], lambda: d.drop_duplicates()
+
+    @op("query", True)
+    def _(rng, d, mk):
+        cs = [c for c in _numeric(d) if isinstance(c, str) and c.isidentifier()]
+        if not cs:
+            return [d], None
+        c = rng.choice(cs)
+        return [d], lambda: d.query(f"{c} > 0")
+
+    @op("sample", True)
+    def _(rng, d, mk):
+        n = min(len(d), rng.choice([1, 2]))
+        return [d], lambda: d.sample(n, random_state=rng.randrange(100))
+
+    @op("nlargest", True)
+    def _(rng, d, mk):
+        cs = [c for c in d.columns if d[c].dtype.kind in "if" and isinstance(d[c].dtype, np.dtype)]
+        if not cs:
+            return [d], None
+        c = rng.choice(cs)
+        return [d], lambda: d.nlargest(2, c)
+
+    @op("loc_mask", True)
+    def _(rng, d, mk):
+        mask = pd.Series([rng.random() < 0.6 for _ in range(len(d))], index=d.index, dtype=bool)
+        return [d], lambda: d.loc[mask]
+
+    # ---- more of the unknown-method branch, and operations that go through pandas' isna()
+    @op("shift", False)
+    def _(rng, d, mk): return [d], lambda: d.shift(1)
+
+    @op("interpolate", False)
+    def _(rng, d, mk):
+        cs = _numeric(d) or list(d.columns)
+        return [d], lambda: d[cs].interpolate()
+
+    @op("where", False)
+    def _(rng, d, mk):
+        cs = _numeric(d) or list(d.columns)
+        return [d], lambda: d[cs].where(d[cs] > 0, 0)
+
+    @op("rank", False)
+    def _(rng, d, mk):
+        cs = _numeric(d) or list(d.columns)
+        return [d], lambda: d[cs].rank()
+
+    @op("diff", False)
+    def _(rng, d, mk):
+        cs = _numeric(d) or list(d.columns)
+        return [d], lambda: d[cs].diff()
+
+    @op("clip", False)
+    def _(rng, d, mk):
+        cs = _numeric(d) or list(d.columns)
+        return [d], lambda: d[cs].clip(0, 2)
+
+    @op("count", False)
+    def _(rng, d, mk): return [d], lambda: d.count()
+
     @op("join", False, 2)
     def _(rng, d, mk):
         u = mk(disjoint=True)
@@ -1017,8 +1113,48 @@ def _ops():
 
 # safe-list operations that turn numeric data into text / booleans: the kept unit cannot stay
 DEGRADING = {"astype_str", "astype_object", "astype_bool", "replace_label", "fillna_label", "assign_retype", "replace"}
+# the operations the C05 statement names -> the harness operations exercising them.  Required outcome for each (checked
+# per case by the oracle, against the __finalize__ calls pandas actually makes): a table frame, reached through methods
+# pdtable knows (safe list / merge / concat / None) — an unknown-method warning on one of these is an alarm
+# (`statement_op_unknown_method:<op>`), e.g. after a pandas upgrade that renames the method `assign` arrives with.
+STATEMENT_OPS = {
+    "copy": ["copy", "copy_shallow"],
+    "rename (in pdtable's safe list, not named by the statement)": ["rename_cols", "rename_index"],
+    "row or column selection": ["rows_bool", "rows_slice", "cols", "cols_none", "iloc_rows", "iloc_rc", "iloc_empty", "loc_rows",
+                                "loc_cols", "loc_mask", "query", "sample", "nlargest", "drop_duplicates", "dropna",
+                                "dropna_subset"],
+    "take": ["take_rows", "take_cols"], "reindex": ["reindex_rows", "reindex_newrow", "reindex_cols"],
+    "sort by index": ["sort_index"], "astype": ["astype", "astype_nullable", "astype_str", "astype_object", "astype_bool"],
+    "fillna": ["fillna", "fillna_label"], "replace": ["replace", "replace_label"],
+    "assign": ["assign_new", "assign_existing", "assign_ext", "assign_retype", "assign_timedelta", "tz_localize"],
+    "drop": ["drop_cols", "drop_rows"],
+    "concat": ["concat_rows", "concat_rows_3", "concat_rows_mixed", "concat_plain_second", "concat_cols",
+               "concat_cols_dup", "concat_clash", "concat_late_shared", "concat_late_clash"],
+    "merge": ["merge_key", "merge_fn", "merge_clash"],
+}
+
+# row selections of the statement that pdtable refuses today (pandas validates an internal isna() frame against the
+# kept units): reported under `row_selection_refused:<op>`, run only once that key is an OPEN known finding
+GATED = {"dropna": "row_selection_refused:dropna", "dropna_subset": "row_selection_refused:dropna_subset"}
+ROW_SELECTION = {"dropna", "dropna_subset", "drop_duplicates", "query", "sample", "nlargest", "loc_mask", "rows_bool",
+                 "rows_slice", "iloc_rows", "loc_rows", "take_rows", "drop_rows"}
+_OPEN_KEYS = None
+
+
+def open_known_keys():
+    global _OPEN_KEYS
+    if _OPEN_KEYS is None:
+        try:
+            _OPEN_KEYS = {k.get("key") for k in common.load_known_findings()
+                          if k.get("status") == "open" and k.get("property") == "C05"}
+        except Exception:  # noqa: BLE001
+            _OPEN_KEYS = set()
+    return _OPEN_KEYS
+
+
 MUTS = ["set_unit", "set_name", "add_dest", "add_column_new", "add_column_existing", "set_disp_unit", "set_fmt",
-        "rewrap_name", "rewrap_units", "rewrap_dests", "rewrap_none", "del_column", "reorder", "discard_dest"]
+        "rewrap_name", "rewrap_units", "rewrap_dests", "rewrap_none", "del_column", "reorder", "discard_dest",
+        "rewrap_transposed", "rewrap_origin", "rewrap_origin_none", "rewrap_strict", "rewrap_dests_str"]
 SIDES = ["source", "result"]
 N_MUT = len(MUTS) * len(SIDES)
 
@@ -1080,7 +1216,7 @@ def is_table_frame(x):
 
 
 def has_info(x):
-    return is_table_frame(x) and x.__dict__.get("_table_data") is not None
+    return is_table_frame(x) and info_of(x) is not None
 
 
 # --------------------------------------------------------------------------- one case
@@ -1102,7 +1238,7 @@ def apply_mutation(res, world, rng, frames, target, mut):
     """perform one follow-up mutation on frame `target`; returns (did_something, new_frames)"""
     import pandas as pd
     from pdtable import Table
-    info = target.__dict__.get("_table_data")
+    info = info_of(target)
     r = world.ref(info)
     cm = info.columns
     new = []
@@ -1216,8 +1352,20 @@ def apply_mutation(res, world, rng, frames, target, mut):
         return False, new
     before = pub(world, target)
     kw, kwj = {}, {"name": None, "dests": None, "units": None, "transposed": None}
+    new_origin = None
     if mut == "rewrap_name":
         kw["name"] = kwj["name"] = "wrapped"
+    elif mut == "rewrap_transposed":
+        kw["transposed"] = kwj["transposed"] = not before["transposed"]
+    elif mut == "rewrap_strict":
+        kw["strict_types"] = kwj["strict"] = False
+    elif mut == "rewrap_dests_str":
+        kw["destinations"] = kwj["dests_str"] = "w1  w2 w1"       # a str value is split at single blanks
+    elif mut in ("rewrap_origin", "rewrap_origin_none"):
+        if mut == "rewrap_origin":
+            new_origin = build_origin({"loc": 9_000_000 + rng.randrange(10 ** 6)})
+        kw["origin"] = new_origin
+        kwj["origin"] = {"set": origin_json(new_origin, world.loc_tok)}
     elif mut == "rewrap_dests":
         kw["destinations"] = {"w1", "w2"}
         kwj["dests"] = ["w1", "w2"]
@@ -1238,7 +1386,7 @@ def apply_mutation(res, world, rng, frames, target, mut):
         return False, new
     d2 = t2.df
     world.keep.append(d2)
-    i2 = d2.__dict__.get("_table_data")
+    i2 = info_of(d2)
     r2 = world.register(i2) if world.dead is None else None
     world.push(step, {"info": r2, "obs": world.raw_obs(i2), "shared": shared_kinds(i2, info)})
     # oracle: overriding field taken, the rest inherited, original untouched, nothing shared
@@ -1256,13 +1404,23 @@ def apply_mutation(res, world, rng, frames, target, mut):
         exp["name"] = "wrapped"
     elif mut == "rewrap_dests":
         exp["dests"] = ["w1", "w2"]
+    elif mut == "rewrap_transposed":
+        exp["transposed"] = not before["transposed"]
+    elif mut == "rewrap_strict":
+        exp["strict"] = False
+    elif mut == "rewrap_dests_str":
+        exp["dests"] = ["", "w1", "w2"]
+    elif mut == "rewrap_origin":
+        exp["op"], exp["anc"] = None, [id_loc(new_origin.input_location)]
+    elif mut == "rewrap_origin_none":
+        exp["op"], exp["anc"] = None, {"exc": "AttributeError"}
     else:
         full = kw["units"] + [KIND_DEFAULT.get(target[l].dtype.kind) for l in list(target.columns)[len(kw["units"]):]]
         exp["cols"] = [[tok(l), u, None, None] for l, u in zip(target.columns, full)]
-    for k in ("name", "dests", "op", "anc"):
+    for k in ("name", "dests", "op", "anc", "transposed", "strict"):
         if p2.get(k) != exp.get(k):
             res.fail(f"re-wrapped table has wrong {k}", p2.get(k), exp.get(k), key="rewrap_" + k)
-    if not target.empty and [c[:2] for c in p2.get("cols", [])] != [c[:2] for c in exp["cols"]]:
+    if not target.empty and "exc" not in p2 and [c[:2] for c in p2.get("cols", [])] != [c[:2] for c in exp["cols"]]:
         res.fail("re-wrapped table has wrong units", p2.get("cols"), exp["cols"], key="rewrap_units")
     new.append(d2)
     return True, new
@@ -1302,6 +1460,13 @@ def check_result(res, world, name, safe, sources, pre, R, exc, ws_outer, calls):
         if c["res"] == "table" and not any(c["carry"]):
             res.fail("table frame produced although no source carried metadata", c["method"], None,
                      key="table_from_nothing")
+    # --- an operation of the statement must be served by a method pdtable knows (no "unknown method" warning)
+    if safe:
+        unk = [c["method"] for c in calls if "unknown_method" in c["warns"]]
+        if unk:
+            res.fail(f"operation {name} of the documented safe list reaches __finalize__ with a method pdtable treats "
+                     "as unknown", unk, "a method of the safe list / merge / concat / None",
+                     key=GATED.get(name, "statement_op_unknown_method:" + name))
     # --- clash: shared surviving columns disagreeing on unit must be refused
     clash = None
     if len(src_info) > 1 and calls:
@@ -1324,7 +1489,13 @@ def check_result(res, world, name, safe, sources, pre, R, exc, ws_outer, calls):
         if isinstance(exc, InvalidTableCombineError):
             res.fail("InvalidTableCombineError without a unit clash between the sources", cls, None,
                      key="spurious_clash")
-        if safe:
+        if safe and name in ROW_SELECTION and not any(c["exc"] is not None for c in calls):
+            res.counts.append("refusal:raised by pandas before any __finalize__")     # e.g. a label that is not there
+        elif safe and name in ROW_SELECTION:
+            # selecting rows changes no dtype and no column: nothing can justify a refusal by __finalize__
+            res.fail(f"row selection {name} of a table frame is refused", cls, "a table frame",
+                     key="row_selection_refused:" + name)
+        elif safe:
             # a refusal must have a cause visible on the result frame of the failing __finalize__ call
             cause = None
             fc = next((c for c in calls if c["exc"] is not None), None)
@@ -1346,7 +1517,7 @@ def check_result(res, world, name, safe, sources, pre, R, exc, ws_outer, calls):
                     exc, (ColumnUnitException, InvalidNamingError, InvalidTableCombineError)) else None
             if cause is None:
                 res.fail(f"safe operation {name} refused without a cause on the result frame", cls, "a table frame",
-                         key="safe_op_refused:" + cls)
+                         key=("row_selection_refused:" + name) if name in ROW_SELECTION else "safe_op_refused:" + cls)
             else:
                 res.counts.append("refusal:" + cause)
         return None
@@ -1367,7 +1538,7 @@ def check_result(res, world, name, safe, sources, pre, R, exc, ws_outer, calls):
                      key="safe_op_degraded:" + name.split("_")[0])
         res.counts.append("result:plain")
         return None
-    if R.__dict__.get("_table_data") is None:
+    if info_of(R) is None:
         warned = bool(ws_outer) or any(c["warns"] for c in calls)
         res.fail(f"operation {name} returned a TableDataFrame without metadata" + ("" if warned else ", no warning, no error"),
                  "TableDataFrame without _table_data", "plain DataFrame + warning, or an error",
@@ -1388,7 +1559,7 @@ def check_result(res, world, name, safe, sources, pre, R, exc, ws_outer, calls):
         for s, sp in src_info:
             for l, u, _, _ in sp["cols"]:
                 units0.setdefault(l, u)
-        for l, c in R._table_data.columns.items():
+        for l, c in info_of(R).columns.items():
             units0.setdefault(tok(l), c.unit)
         labels = [tok(l) for l in R.columns]
         kinds0 = {tok(l): d.kind for l, d in zip(R.columns, R.dtypes)}
@@ -1438,16 +1609,19 @@ def check_result(res, world, name, safe, sources, pre, R, exc, ws_outer, calls):
                  p["column_names"], key="units_vs_columns")
     # origin: derived, names a pandas operation, ancestors = the sources' input locations
     from pdtable.table_origin import TableOrigin
-    o = R._table_data.metadata.origin
+    o = info_of(R).metadata.origin
     if not isinstance(o, TableOrigin) or o.input_location is not None or not isinstance(o.operation, str) \
             or not o.operation.startswith("Pandas "):
         res.fail("result origin is not a derived origin naming a pandas operation", repr(o)[:120], None, key="origin_kind")
     else:
+        # a source made in code has no origin: it has no input location and contributes none
         want = []
         ok = True
         for s, sp in src_info:
+            if not sp["is_origin"]:
+                continue
             if isinstance(sp["anc"], dict):
-                ok = False
+                ok = False               # a source whose own origin is inconsistent (not generated)
             else:
                 want += sp["anc"]
         res.counts.append("anc-checked" if ok else "anc-skip")
@@ -1456,14 +1630,19 @@ def check_result(res, world, name, safe, sources, pre, R, exc, ws_outer, calls):
             if not exact:
                 res.fail("input ancestors of the result are not the sources' input locations", p["anc"], want,
                          key="ancestors")
+        for what, f in (("str(metadata)", lambda: str(info_of(R).metadata)), ("str(origin)", lambda: str(o))):
+            try:
+                f()
+            except Exception as e:  # noqa: BLE001
+                res.fail(f"{what} of the result raises", type(e).__name__, "a text", key="origin_unprintable")
         if safe and len(calls) == 1:
             par = list(o.parents)
-            src_o = [s._table_data.metadata.origin for s, _ in src_info]
+            src_o = [info_of(s).metadata.origin for s, _ in src_info if info_of(s).metadata.origin is not None]
             if len(par) != len(src_o) or any(a is not b for a, b in zip(par, src_o)):
                 res.fail("origin parents are not the sources' origins", len(par), len(src_o), key="origin_parents")
     # no aliasing, by identity
     for s, _ in src_info:
-        sh = shared_kinds(R._table_data, s._table_data)
+        sh = shared_kinds(info_of(R), info_of(s))
         if sh:
             res.fail("result shares mutable metadata objects with a source", sh, [], key="alias:" + ",".join(sh))
     return R
@@ -1610,8 +1789,11 @@ def exec_case(case, ops):
             if thunk is None:
                 res.counts.append("skip:" + name)
                 continue
+            if name in GATED and GATED[name] not in open_known_keys():
+                res.counts.append("gated:" + name)
+                continue
             res.counts.append("op:" + name)
-            if stream == "chains" and any(s.__dict__.get("_table_data") is not None and
+            if stream == "chains" and any(info_of(s) is not None and
                                           any(k not in KIND_DEFAULT for k in (s[c].dtype.kind for c in s.columns))
                                           for s in sources if is_table_frame(s)):
                 break
@@ -1748,6 +1930,14 @@ def run(tier, seed, model_ok, translator, search=False):
     else:
         out.notes.append("pandas __finalize__ methods per operation: all within the committed table "
                          "(recorded with pandas 3.0.6)")
+    safe_names = {o[0] for o in ops if o[1]}
+    listed = {x for v in STATEMENT_OPS.values() for x in v}
+    if safe_names - listed or listed - safe_names:
+        out.notes.append("STATEMENT_OPS and the safe=True operations differ: " + str(sorted(safe_names ^ listed)))
+    unrun = {k: [x for x in v if not out.dist.get("op:" + x)] for k, v in STATEMENT_OPS.items()}
+    unrun = {k: v for k, v in unrun.items() if len(v) == len(STATEMENT_OPS[k])}
+    if unrun:
+        out.notes.append("operations of the statement not exercised in this run: " + str(sorted(unrun)))
     if model_ok and not search:
         answers = common.run_model(mops)
         for (case, expect), ans in zip(pend, answers):
@@ -1790,17 +1980,46 @@ def replay(rep):
         case = make_case(int(inp.get("seed", rep.get("seed", 0))), inp["stream"], int(inp["index"]), ops)
     else:
         return False, "replay file has no input (no-failing-input-found): " + str(rep.get("broken"))[:300]
+    # the case is executed in this process after a copy of itself read from other input locations, twice: a change
+    # that keeps state between operations (a cache keyed by object identity, a module-level memo) shows then, as it
+    # did in the run that found it
+    import copy
+    import gc
+    what = rep.get("what")
+
+    def relocated(c, delta):
+        """the same case read from other input locations (what a state kept between operations would mix up)"""
+        c = copy.deepcopy(c)
+
+        def walk(o):
+            if isinstance(o, dict):
+                if "loc" in o and isinstance(o["loc"], int):
+                    o["loc"] += delta
+                for v in o.values():
+                    walk(v)
+            elif isinstance(o, list):
+                for v in o:
+                    walk(v)
+        for k, t in enumerate(c.get("tables", [])):
+            if t.get("origin") is None:
+                t["origin"] = {"loc": delta + k}      # … or read from an input at all
+            else:
+                walk(t["origin"])
+        return c
     undo = install()
     try:
-        with warnings.catch_warnings():
-            warnings.simplefilter("ignore")
-            res = exec_case(case, ops)
+        for variant in (relocated(case, 5000), case, relocated(case, 7000), case):
+            with warnings.catch_warnings():
+                warnings.simplefilter("ignore")
+                res = exec_case(variant, ops)
+            # exactly the oracle that failed is re-evaluated (other, e.g. known, findings of the case do not count)
+            hits = [f for f in res.failures if f[0] == what] if what else \
+                [f for f in res.failures if not f[3].startswith(("safe_op_degraded:", "tableframe_without_metadata:",
+                                                                 "row_selection_refused:"))]
+            if hits:
+                return False, hits[0][0]
+            del res
+            gc.collect()
     finally:
         undo()
-    # exactly the oracle that failed is re-evaluated (other, e.g. known, findings of the same case do not count)
-    what = rep.get("what")
-    hits = [f for f in res.failures if f[0] == what] if what else \
-        [f for f in res.failures if not f[3].startswith(("safe_op_degraded:", "tableframe_without_metadata:"))]
-    if hits:
-        return False, hits[0][0]
     return True, "property holds on this input"
